@@ -527,6 +527,39 @@ def run(rep: Report, tier: str) -> None:
                                 f"_round_significant({v13!r}, {digits}) {bad13}: a scalar result with that value (e.g. `sc_r <- exp(1000);`) makes run() end in a raw Python exception "
                                 f"instead of returning the scalar"))
     rep.floor("R32.13 values x digits", n13, 20)
+    # ---- R32.14: round / trunc with a precision that is a column expression are applied to DOUBLE ----
+    rep.rule("R32.14", "registry SQL of round / trunc with a non-constant precision operand (a component): the value operand is cast to DOUBLE first - DuckDB has no "
+                       "ROUND(DECIMAL, <non-constant>) and raises NotImplementedException, which no VTL error maps")
+    from sa import registryx as _rx14
+    import re as _re14
+    REG14 = _rx14.extract(P)
+    n14 = 0
+    for op14 in ("round", "trunc"):
+        try:
+            sql14 = str(_rx14.registry_sql(REG14, op14, '"Me_1"', '"Me_2"'))
+        except Exception as e:  # noqa: BLE001
+            raise AnalysisError(f"R32.14: registry SQL of {op14} not evaluable: {e}")
+        n14 += 1
+        rep.instance("R32.14", f"precision/{op14}", nontrivial=True, sample={"operator": op14, "sql": sql14})
+        m14 = _re14.match(r"\s*(\w+)\s*\((.*)\)\s*$", sql14, _re14.S)
+        first = ""
+        if m14:
+            depth, cur = 0, ""
+            for ch in m14.group(2):
+                if ch == "(":
+                    depth += 1
+                if ch == ")":
+                    depth -= 1
+                if ch == "," and depth == 0:
+                    break
+                cur += ch
+            first = cur.strip()
+        if not _re14.search(r"(AS\s+(DOUBLE|FLOAT|REAL)\s*\)|::\s*(DOUBLE|FLOAT|REAL))\s*$", first, _re14.I):
+            e14 = next((e_ for e_ in REG14 if e_.token == op14), None)
+            rep.add(Finding("R32.14", f"R32.14/precision/{op14}", "src/vtlengine/duckdb_transpiler/Transpiler/operators.py", getattr(e14, "line", 1), f"registry[{op14}]",
+                            f"{op14}(Me_1, Me_2) with the number of digits given by a component is generated as `{sql14}`: the value operand `{first}` is not cast to DOUBLE, and Number "
+                            f"components are DECIMAL - DuckDB raises NotImplementedException (ROUND(DECIMAL, INTEGER) with non-constant precision), which escapes run() raw"))
+    rep.floor("R32.14 precision operators", n14, 2)
     rep.assumptions = ["a DuckDB error() call surfaces as duckdb.InvalidInputException whose text contains the constant message",
                        "substring tests on the dynamic suffix of a message are treated as not matching"]
 
